@@ -14,7 +14,7 @@ MONITORS = ["normalise", "merge"]
 INSITU = None
 TECHNIQUE = "runtime monitoring: differential observer between the real loader and an independent exact-rational parse of mido-written files"
 RULE = ("seeded raw MIDI files written with mido: ticks_per_beat in {24,48,96,100,120,192,384,480,960,7,32767}, 1-5 tracks with "
-        "track-private pitch pools, 0-8 notes (or a long run of 300-1500 deltas for drift), note-off as note_off or note_on "
+        "track-private pitch pools, 0-8 notes (sometimes a second channel taking over a pitch of the first inside one track) (or a long run of 300-1500 deltas for drift), note-off as note_off or note_on "
         "velocity 0, channels 0-15, time/key signatures on arbitrary tracks (distinct output ticks), x groupings (singletons, "
         "merged groups, omitted tracks, meta-only tracks, every meta target index). Stratum A: every note at least one output "
         "tick long with gaps that survive rounding (must be entirely clean); stratum B: notes that collapse under rescaling "
@@ -24,7 +24,7 @@ RULE = ("seeded raw MIDI files written with mido: ticks_per_beat in {24,48,96,10
 PLAN = {"quick": {"cases": 1200, "jobs": 4, "timeout": 600},
         "thorough": {"cases": 50000, "jobs": 16, "timeout": 3000, "budget_s": 420}}
 FLOORS = {"quick": {"c13.notes_position_checked": 3000, "c13.signature_position_checked": 500, "c13.long_track": 50,
-                    "c13.omitted_track": 150, "c13.merged_group": 250, "c13.non_dyadic_resolution": 300},
+                    "c13.omitted_track": 150, "c13.merged_group": 200, "c13.non_dyadic_resolution": 300},
           "thorough": {"c13.notes_position_checked": 150000}}
 TPB = [24, 48, 96, 100, 120, 192, 384, 480, 960, 7, 32767]
 KEYS_MIDO = ["C", "G", "D", "A", "E", "B", "F#", "C#", "F", "Bb", "Eb", "Ab", "Db", "Gb", "Cb", "Am", "Em", "Dm", "F#m", "Ebm"]
@@ -68,6 +68,19 @@ def make_case(rng, i, tier):
                 iv.append((on, on + ln))
                 evs.append([on, "on", chan, p, rng.randint(1, 127)])
                 evs.append([on + ln, "off", chan, p, rng.random() < 0.5])
+        if not long_run and rng.random() < 0.3:
+            # voice hand-over inside one file track: another channel strikes a pitch a few file ticks BEFORE the first channel
+            # releases it (note-on written before the note-off; both usually round to the same library tick)
+            chan2 = (chan + 1 + rng.randrange(0, 14)) % 16
+            for e in [x for x in evs if x[1] == "off"][:2]:
+                t_on = max(0, e[0] - rng.randrange(0, max(1, int(unit) // 2 + 1)))
+                ln2 = rng.randint(minlen, max(minlen, int(unit * 20)))
+                iv2 = busy.setdefault(("h", e[3]), [])
+                if any(not (t_on + ln2 + mingap <= a or t_on >= b + mingap) for a, b in iv2):
+                    continue
+                iv2.append((t_on, t_on + ln2))
+                evs.append([t_on, "on", chan2, e[3], rng.randint(1, 127)])
+                evs.append([t_on + ln2, "off", chan2, e[3], rng.random() < 0.5])
         for _ in range(rng.randint(0, 2)):
             kind = rng.choice(["ts", "ks"])
             T = rng.randrange(0, max(1, span))
